@@ -189,7 +189,8 @@ fn pick_action(w: &W16, r: &mut Rng) -> Action {
             let msg = match shape {
                 0 => fm::ExecuteMsg::UpdateTrioConfig { trio_addr: w.trio.addr.to_string(), owner: None, fee_collector_addr: None, pool_fees: Some(trio_fee(small_fees(r))), feature_toggle: None, amp_factor: None },
                 1 => fm::ExecuteMsg::UpdateTrioConfig { trio_addr: w.trio.addr.to_string(), owner: None, fee_collector_addr: None, pool_fees: None, feature_toggle: None, amp_factor: Some(tm::RampAmp { future_a: 200, future_block: now + 20_000 }) },
-                _ => fm::ExecuteMsg::UpdateTrioConfig { trio_addr: w.trio.addr.to_string(), owner: Some(n.to_string()), fee_collector_addr: None, pool_fees: None, feature_toggle: None, amp_factor: None },
+                // the ownership transfer sometimes travels together with a (valid) amp ramp and a fee update
+                _ => fm::ExecuteMsg::UpdateTrioConfig { trio_addr: w.trio.addr.to_string(), owner: Some(n.to_string()), fee_collector_addr: None, pool_fees: if r.chance(1, 2) { Some(trio_fee(small_fees(r))) } else { None }, feature_toggle: None, amp_factor: if r.chance(1, 2) { Some(tm::RampAmp { future_a: 150 + now % 50, future_block: now + 20_000 }) } else { None } },
             };
             let mut a = mk(&format!("factory.UpdateTrioConfig/{}", ["fees", "ramp", "owner"][shape as usize]), "factory", &core.factory, bin(&msg), if child_is_factorys { o("factory") } else { none.clone() });
             if shape == 2 && child_is_factorys {
@@ -211,7 +212,7 @@ fn pick_action(w: &W16, r: &mut Rng) -> Action {
                 0 => pm::ExecuteMsg::UpdateConfig { owner: None, fee_collector_addr: None, pool_fees: Some(pool_fee(small_fees(r))), feature_toggle: None },
                 1 => pm::ExecuteMsg::UpdateConfig { owner: None, fee_collector_addr: Some(w.inc.users[3].to_string()), pool_fees: None, feature_toggle: None },
                 2 => pm::ExecuteMsg::UpdateConfig { owner: None, fee_collector_addr: None, pool_fees: None, feature_toggle: Some(pm::FeatureToggle { withdrawals_enabled: false, deposits_enabled: true, swaps_enabled: true }) },
-                3 => pm::ExecuteMsg::UpdateConfig { owner: Some(n.to_string()), fee_collector_addr: None, pool_fees: None, feature_toggle: None },
+                3 => pm::ExecuteMsg::UpdateConfig { owner: Some(n.to_string()), fee_collector_addr: None, pool_fees: if r.chance(1, 2) { Some(pool_fee(small_fees(r))) } else { None }, feature_toggle: if r.chance(1, 2) { Some(pm::FeatureToggle { withdrawals_enabled: true, deposits_enabled: true, swaps_enabled: true }) } else { None } },
                 _ => pm::ExecuteMsg::UpdateConfig { owner: None, fee_collector_addr: None, pool_fees: None, feature_toggle: None },
             };
             let mut a = mk(&format!("pair.UpdateConfig/{}", ["fees", "fee_collector", "toggle", "owner", "empty"][shape as usize]), "pair", &pair.addr, bin(&msg), o("pair"));
@@ -226,7 +227,10 @@ fn pick_action(w: &W16, r: &mut Rng) -> Action {
                 0 => tm::ExecuteMsg::UpdateConfig { owner: None, fee_collector_addr: None, pool_fees: Some(trio_fee(small_fees(r))), feature_toggle: None, amp_factor: None },
                 1 => tm::ExecuteMsg::UpdateConfig { owner: None, fee_collector_addr: Some(w.inc.users[3].to_string()), pool_fees: None, feature_toggle: None, amp_factor: None },
                 2 => tm::ExecuteMsg::UpdateConfig { owner: None, fee_collector_addr: None, pool_fees: None, feature_toggle: Some(tm::FeatureToggle { withdrawals_enabled: true, deposits_enabled: false, swaps_enabled: true }), amp_factor: None },
-                _ => tm::ExecuteMsg::UpdateConfig { owner: Some(n.to_string()), fee_collector_addr: None, pool_fees: None, feature_toggle: None, amp_factor: None },
+                _ => {
+                    let h = w.inc.app.block_info().height;
+                    tm::ExecuteMsg::UpdateConfig { owner: Some(n.to_string()), fee_collector_addr: None, pool_fees: if r.chance(1, 2) { Some(trio_fee(small_fees(r))) } else { None }, feature_toggle: None, amp_factor: if r.chance(1, 2) { Some(tm::RampAmp { future_a: 150 + h % 50, future_block: h + 20_000 }) } else { None } }
+                }
             };
             let mut a = mk(&format!("trio.UpdateConfig/{}", ["fees", "fee_collector", "toggle", "owner"][shape as usize]), "trio", &w.trio.addr, bin(&msg), o("trio"));
             if shape == 3 {
@@ -479,6 +483,23 @@ fn pick_action(w: &W16, r: &mut Rng) -> Action {
     }
 }
 
+/// owner as reported by the contract's own Config query (where the response carries one)
+fn owner_reported(w: &W16, key: &str) -> Option<Addr> {
+    let core = &w.inc.core;
+    let app = &w.inc.app;
+    match key {
+        "pair" => query::<pm::ConfigResponse, _>(app, &w.inc.pair.as_ref()?.addr, &pm::QueryMsg::Config {}).ok().map(|c| c.owner),
+        "trio" => query::<tm::ConfigResponse, _>(app, &w.trio.addr, &tm::QueryMsg::Config {}).ok().map(|c| c.owner),
+        "vault0" => query::<vm::Config, _>(app, &w.vaults[0].addr, &vm::QueryMsg::Config {}).ok().map(|c| c.owner),
+        "vault1" => query::<vm::Config, _>(app, &w.vaults[1].addr, &vm::QueryMsg::Config {}).ok().map(|c| c.owner),
+        "factory" => query::<fm::ConfigResponse, _>(app, &core.factory, &fm::QueryMsg::Config {}).ok().map(|c| Addr::unchecked(c.owner)),
+        "collector" => query::<fc::Config, _>(app, &core.collector, &fc::QueryMsg::Config {}).ok().map(|c| c.owner),
+        "distributor" => query::<fd::Config, _>(app, &core.distributor, &fd::QueryMsg::Config {}).ok().map(|c| c.owner),
+        "lair" => query::<lm::Config, _>(app, &core.lair, &lm::QueryMsg::Config {}).ok().map(|c| c.owner),
+        _ => None,
+    }
+}
+
 fn is_auth_error(e: &str) -> bool {
     let l = e.to_lowercase();
     l.contains("unauthorized") || l.contains("not admin") || l.contains("unauthorised") || l.contains("only the") || l.contains("caller is not")
@@ -648,6 +669,14 @@ fn history(acc: &mut Acc, r: &mut Rng, variant: u64, steps: u64) {
                     }
                     w.owners.insert(key, n.clone());
                     acc.count("transfer.committed");
+                    // the contract itself must now report the new owner (a transfer that is accepted but not applied
+                    // leaves the old owner in charge)
+                    if let Some(actual) = owner_reported(&w, key) {
+                        acc.count("check.A3.transfer-applied");
+                        if actual != *n {
+                            acc.violation("C16", &format!("A3/accepted-ownership-transfer-not-applied/{key}"), detail(&w, json!({"action": a.name, "expected_owner": n.to_string(), "reported_owner": actual.to_string()})));
+                        }
+                    }
                     acc.count(&format!("transfer.committed.{key}"));
                 }
             }
@@ -682,7 +711,7 @@ pub fn run(ctx: &Ctx) -> (CheckMeta, Acc) {
             history(acc, &mut r, sh + 16 * h, steps);
         }
     });
-    let mut obligations: Vec<String> = vec!["check.A1.unauthorised-caller".into(), "check.A2.authorised-caller".into(), "a1.previous-owner-rejected".into(), "a2.new-owner-after-transfer-accepted".into(), "transfer.committed".into()];
+    let mut obligations: Vec<String> = vec!["check.A1.unauthorised-caller".into(), "check.A2.authorised-caller".into(), "a1.previous-owner-rejected".into(), "a2.new-owner-after-transfer-accepted".into(), "transfer.committed".into(), "check.A3.transfer-applied".into()];
     for a in [
         "factory.UpdateConfig", "factory.UpdatePairConfig", "factory.UpdateTrioConfig", "factory.CreatePair", "factory.CreateTrio", "factory.AddNativeTokenDecimals", "factory.MigratePair", "factory.MigrateTrio", "factory.RemovePair", "factory.RemoveTrio",
         "pair.UpdateConfig", "trio.UpdateConfig", "router.AddSwapRoutes", "router.RemoveSwapRoutes", "router.ExecuteSwapOperation",
